@@ -16,7 +16,7 @@ SHARD_SIZE = 150
 RULE = ('one real Dispatcher + SecNode with 1..3 modules (exported / hidden parameters, optionally a hidden module), '
         '1..3 fake connections (subclasses of the real RequestHandler: setup / handle / finish are the real code) each '
         'running a script of activate / deactivate (global, module, parameter scope, also unknown module / unknown or '
-        'hidden parameter / with data) / *IDN? / close, and 0..2 driver threads calling Module.announceUpdate with '
+        'hidden parameter / with data) / *IDN? / the non-SECoP action _ident / close, and 0..2 driver threads calling Module.announceUpdate with '
         'globally unique values; all threads run under the deterministic scheduler and are interleaved at every '
         'synchronisation point (dispatcher lock, module updateLock, make_update, send_reply, receive); schedules: '
         'systematic depth-first enumeration with a preemption bound on small scenarios, then seeded random / sticky '
@@ -213,6 +213,8 @@ def run_case(case, policy=None):
                     return None
                 if req[0] == 'idn':
                     return ('*IDN?', None, None)
+                if req[0] == 'bogus':          # not a SECoP action: must not reach the identification handler
+                    return ('_ident', None, None)
                 action = {'act': 'activate', 'deact': 'deactivate'}[req[0]]
                 return (action, spec_of(case, req[1]), 1 if len(req) > 2 and req[2] else None)
 
@@ -293,6 +295,8 @@ def enc_req(r):
         return 'RIdn'
     if r[0] == 'close':
         return 'RClose'
+    if r[0] == 'bogus':
+        return 'RBogus'
     data = gal.boolean(len(r) > 2 and bool(r[2]))
     return f"({'RAct' if r[0] == 'act' else 'RDeact'} {enc_scope(r[1])} {data})"
 
@@ -689,8 +693,10 @@ def rand_script(rng, node):
             if rng.random() < 0.05:
                 req.append(1)
             script.append(req)
-        else:
+        elif r < 0.96:
             script.append(['idn'])
+        else:
+            script.append(['bogus'])
     if rng.random() < 0.3:
         script.append(['close'])
     return script
@@ -748,6 +754,8 @@ SCENARIOS = [
     {'node': HID, 'conns': [[['act', ['g']], ['act', ['m', 1]], ['act', ['p', 0, 1]]]], 'upds': [[[0, 1, 1], [1, 0, 2], [0, 0, 3]]]},
     {'node': HID, 'conns': [[['act', ['m', 0]], ['deact', ['g']], ['deact', ['m', 0], 1]], [['act', ['badmod']], ['act', ['g'], 1]]],
      'upds': [[[0, 0, 1]]]},
+    # a request line with the action '_ident' is not an identification request: the scope stays
+    {'node': ONE, 'conns': [[['act', ['g']], ['bogus']]], 'upds': [[[0, 0, 1]]]},
 ]
 
 
@@ -774,9 +782,10 @@ def _explore_one(args):
 
 def systematic_cases(bound, limit, scenarios):
     import multiprocessing as mp
+    import os
     jobs = [(sc, bound, limit) for sc in scenarios]
     try:
-        with mp.get_context('fork').Pool(min(16, len(jobs))) as pool:
+        with mp.get_context('fork').Pool(min(int(os.environ.get('VERIF_JOBS', '16')), 16, len(jobs))) as pool:
             res = pool.map(_explore_one, jobs, chunksize=1)
     except Exception:
         res = [[] for _ in jobs]
@@ -789,7 +798,7 @@ def systematic_cases(bound, limit, scenarios):
 
 def gen_cases(seed, tier):
     rng = random.Random(seed * 1000003 + 8)
-    n = {'quick': 2200, 'thorough': 30000, 'search': 30000}[tier]
+    n = {'quick': 2200, 'thorough': 15000, 'search': 15000}[tier]
     cases = [rand_case(rng) for _ in range(n)]
     # the racing scenarios also under many random schedules
     for sc in SCENARIOS:
@@ -798,7 +807,7 @@ def gen_cases(seed, tier):
     if tier == 'quick':
         cases.extend(systematic_cases(2, 150, SCENARIOS))
     else:
-        cases.extend(systematic_cases(3, 4000, SCENARIOS))
+        cases.extend(systematic_cases(3, 2500, SCENARIOS))
     return cases
 
 
